@@ -95,12 +95,31 @@ def dmAuxOp (j : Json) : R Json := do
     ("pi_grad_am_noexpand", .arr #[outPRBM qa.1, outPRBM qa.2]),
     ("pi_grad_ph_noexpand", .arr #[outPRBM qp.1, outPRBM qp.2])]
 
+/-- auxiliary (extension round X2): the scalar complex kernel on a list of complex numbers `z` (and a second list `w` of the same
+length): HEAD's forms `C.invH z`, `C.divH w z`, `C.sdivH w z`, `C.absH z`, `C.csigmoidH z.re z.im` — the definitions
+`cplxRotComp` / `piGrad` call — beside the textbook forms `C.inv z`, `C.div w z`, `csigmoid z.re z.im` (the code before 7038bfb) -/
+def kernelOp (j : Json) : R Json := do
+  let zr ← jFloatArr (← fld j "zr"); let zi ← jFloatArr (← fld j "zi")
+  let wr ← jFloatArr (← fld j "wr"); let wi ← jFloatArr (← fld j "wi")
+  checkVec zi zr.size "zi"; checkVec wr zr.size "wr"; checkVec wi zr.size "wi"
+  let zs : Array (C Float) := (Array.range zr.size).map (fun k => (zr[k]!, zi[k]!))
+  let ws : Array (C Float) := (Array.range zr.size).map (fun k => (wr[k]!, wi[k]!))
+  let pr (f : C Float → C Float) : Json := .arr (zs.map (fun z => let r := f z; .arr #[fOut r.1, fOut r.2]))
+  let pr2 (f : C Float → C Float → C Float) : Json :=
+    .arr ((Array.range zr.size).map (fun k => let r := f ws[k]! zs[k]!; .arr #[fOut r.1, fOut r.2]))
+  return Json.mkObj [
+    ("invH", pr C.invH), ("inv", pr C.inv),
+    ("divH", pr2 C.divH), ("sdivH", pr2 C.sdivH), ("div", pr2 C.div),
+    ("absH", .arr (zs.map (fun z => fOut (C.absH z)))),
+    ("csigmoidH", pr (fun z => C.csigmoidH z.1 z.2)), ("csigmoid", pr (fun z => csigmoid z.1 z.2))]
+
 def handle (op : String) (j : Json) : Option (R Json) :=
   match op with
   | "c03.pos" => some (posOp j)
   | "c03.cplx" => some (cplxOp j)
   | "c03.dm" => some (dmOp j)
   | "c03.dm_aux" => some (dmAuxOp j)
+  | "c03.kernel" => some (kernelOp j)
   | _ => none
 
 end Drv.C03
